@@ -162,6 +162,7 @@ func verifC05(n Name) (base []byte, parts [][]byte, b2 []byte) {
 //@   props C03
 //@   ensures (forall j int :: 0 <= j < len(x) ==> isdigit(x[j])) && (forall k int :: 0 <= k < len(x) ==> decval(x, k) <= 922337203685477579) ==>
 //@             err == nil && f == float64(decval(x, len(x)))
+//@   ensures err != nil ==> typeis(err, *bytesconv.NumError) && as(err, *bytesconv.NumError) != nil
 //@   loop 1:
 //@     invariant 0 <= idx() <= len(x) && val == decval(x, idx()) && 0 <= val
 //@     invariant forall j int :: 0 <= j < idx() ==> isdigit(x[j])
@@ -332,3 +333,32 @@ func verifC05(n Name) (base []byte, parts [][]byte, b2 []byte) {
 //@     invariant old(r.units) != nil ==> r.units == old(r.units)
 //@     invariant old(r.interns) != nil ==> r.interns == old(r.interns)
 //@     decreases len(initConfig) - i
+
+// ---------------------------------------------------------------------------
+// Benchmark lines (C02, C03, C04)
+
+// valueOK: a reported measurement is in base units — either the written unit
+// needed no normalisation, or Unit/Value are the normalised pair and the
+// written pair is kept alongside.
+//@ pure func valueOK(v Value) bool =
+//@     (v.OrigUnit == "" ==> benchunit.Tidy_1(v.Value, v.Unit) == v.Unit) &&
+//@     (v.OrigUnit != "" ==> v.Unit == benchunit.Tidy_1(v.OrigValue, v.OrigUnit) && v.OrigUnit != v.Unit &&
+//@                            bits(v.Value, benchunit.Tidy_0(v.OrigValue, v.OrigUnit)))
+
+//@ pure func readerFrame(a Reader, b Reader) bool = a.s == b.s && a.err == b.err && a.q === b.q && a.qPos == b.qPos &&
+//@     a.units == b.units && a.interns == b.interns && a.result.Config === b.result.Config &&
+//@     a.result.configPos == b.result.configPos && a.result.fileName == b.result.fileName && a.result.line == b.result.line
+
+//@ func (r *Reader) parseBenchmarkLine(line []byte) (serr *SyntaxError)
+//@   props C02 C03 C04
+//@   requires r != nil && internsOK(r) && len(line) >= 9
+//@   modifies r, r.interns, r.result.Values
+//@   ensures readerFrame(deref(r), old(deref(r))) && internsOK(r)
+//@   ensures serr == nil ==> len(r.result.Values) >= 1 && forall i int :: 0 <= i < len(r.result.Values) ==> valueOK(r.result.Values[i])
+//@   ensures serr == nil ==> !errseen()
+//@   loop 1:
+//@     invariant readerFrame(deref(r), old(deref(r))) && internsOK(r) && !errseen()
+//@     invariant unchanged(r, r.interns, old(r.result.Values))
+//@     invariant ref(r.result.Values) == old(ref(r.result.Values)) || fresh(r.result.Values)
+//@     invariant forall i int :: 0 <= i < len(r.result.Values) ==> valueOK(r.result.Values[i])
+//@     decreases len(line)
